@@ -81,6 +81,14 @@ def make_cases(rng, tier):
         progs.append(("un", ("proj", [k1, k2]), (mid, True, False, False), back))
     for _ in range(n):
         progs.append(mp.gen_mprog(rng, rng.choice([1, 2, 3, 4, 5, 7, 9]))[0])
+    # joins with the join identity whose surviving operand has to stay a subquery (predicate, DISTINCT, window, UNION)
+    k1 = enc.K(1)
+    for i in range(12):
+        x = ("leaf", 1, ("sql", 0), [k1], [{k1: 1}, {k1: 2}, {k1: 2}], (0, None))
+        ident = ("leaf", 2, ("sql", 0), [], [{}], (1, 1), "identity")
+        pred = ("cmp", "gt", ("ref", k1), ("lit", 0)) if i % 4 == 0 else None
+        y = [x, ("un", ("dedup",), mp.DEFAULT, x), ("un", ("slice", 1, 3), mp.DEFAULT, x), ("chain", x, x)][i % 4]
+        progs.append(("join", pred, True, False, y, ident) if i % 2 == 0 else ("join", pred, True, False, ident, y))
     # engine-restricted column functions requested with every kind of preferred-engine option
     import c20
     progs += [c["json"]["program_term"] for c in c20.restricted_cases(rng, n // 6, keep_term=True)[0]]
